@@ -2,7 +2,9 @@
    Pinned statements only; proofs in proofs/StrictProofs.v. *)
 From Cfb.model Require Import Base Names DirEnt State Open.
 From Cfb.gen Require Import Consts.
-From Cfb.proofs Require Import StrictProofs.
+From Cfb.spec Require Import WfImage.
+From Cfb.proofs Require Import StrictProofs WfOpen WfContent Tolerated.
+Set Printing Width 110.
 Open Scope N_scope.
 
 (* for EVERY byte string: the identical state, hence the identical tree,
@@ -69,3 +71,75 @@ Theorem C16_first_difat_free_is_end_of_chain :
     header_decode st (spliceN bs HDR_OFF_FIRST_DIFAT (le_bytes 4 FREE_SECTOR)) = Ok h.
 Proof. exact tolerated_first_difat_free. Qed.
 Print Assumptions C16_first_difat_free_is_end_of_chain.
+
+(* TABLE level, whole images: for ANY strictly openable image, changing the FAT / MiniFAT / DIFAT sector count in the header makes strict open fail and permissive open return the same state (up to the cached header bytes) *)
+Theorem C16_image_header_counts_tolerated : ltac:(let t := type of tolerated_header_count in exact t).
+Proof. exact tolerated_header_count. Qed.
+Check C16_image_header_counts_tolerated.
+Print Assumptions C16_image_header_counts_tolerated.
+
+(* for ANY checker-accepted image: strict rejects, permissive exposes exactly logical b *)
+Theorem C16_wf_header_counts_same_logical_content : ltac:(let t := type of wf_tolerated_header_count in exact t).
+Proof. exact wf_tolerated_header_count. Qed.
+Check C16_wf_header_counts_same_logical_content.
+Print Assumptions C16_wf_header_counts_same_logical_content.
+
+(* non-zero directory sector count in version 3 *)
+Theorem C16_wf_v3_directory_count_same_logical_content : ltac:(let t := type of wf_tolerated_v3_num_dir in exact t).
+Proof. exact wf_tolerated_v3_num_dir. Qed.
+Check C16_wf_v3_directory_count_same_logical_content.
+Print Assumptions C16_wf_v3_directory_count_same_logical_content.
+
+(* version 4: permissive ignores the count; strict refuses only a count that is too small (observation: a count that is too large is accepted by strict too) *)
+Theorem C16_wf_v4_directory_count : ltac:(let t := type of wf_v4_num_dir in exact t).
+Proof. exact wf_v4_num_dir. Qed.
+Check C16_wf_v4_directory_count.
+Print Assumptions C16_wf_v4_directory_count.
+
+(* DIFAT chain ended by the free marker in the header: read as END_OF_CHAIN in BOTH modes, same logical content *)
+Theorem C16_wf_first_difat_free : ltac:(let t := type of wf_first_difat_free in exact t).
+Proof. exact wf_first_difat_free. Qed.
+Check C16_wf_first_difat_free.
+Print Assumptions C16_wf_first_difat_free.
+
+(* FAT entries beyond the last sector not FREE: strict rejects, permissive trims, same logical content *)
+Theorem C16_zero_padded_fat_tolerated : ltac:(let t := type of wf_tolerated_fat_padding in exact t).
+Proof. exact wf_tolerated_fat_padding. Qed.
+Check C16_zero_padded_fat_tolerated.
+Print Assumptions C16_zero_padded_fat_tolerated.
+
+(* a FAT sector whose own cell is not FAT_SECTOR: strict rejects, permissive repairs in memory, same logical content *)
+Theorem C16_unmarked_fat_sector_tolerated : ltac:(let t := type of wf_tolerated_fat_unmarked in exact t).
+Proof. exact wf_tolerated_fat_unmarked. Qed.
+Check C16_unmarked_fat_sector_tolerated.
+Print Assumptions C16_unmarked_fat_sector_tolerated.
+
+(* the in-memory repair itself *)
+Theorem C16_permissive_repair_of_marks : ltac:(let t := type of alloc_validate_perm_repair in exact t).
+Proof. exact alloc_validate_perm_repair. Qed.
+Check C16_permissive_repair_of_marks.
+Print Assumptions C16_permissive_repair_of_marks.
+
+(* next pointer FREE in a DIFAT sector: strict InvalidData, permissive ends the chain *)
+Theorem C16_difat_chain_ended_by_free_inside_a_difat_sector : ltac:(let t := type of difat_chain_free_end in exact t).
+Proof. exact difat_chain_free_end. Qed.
+Check C16_difat_chain_ended_by_free_inside_a_difat_sector.
+Print Assumptions C16_difat_chain_ended_by_free_inside_a_difat_sector.
+
+(* non-vacuity: the theorem applied to a model-written image with storages, mini and regular streams *)
+Theorem C16_header_count_examples : ltac:(let t := type of Tolerated.HeaderExamples.num_fat_v3_thm in exact t).
+Proof. exact Tolerated.HeaderExamples.num_fat_v3_thm. Qed.
+Check C16_header_count_examples.
+Print Assumptions C16_header_count_examples.
+
+(* non-vacuity *)
+Theorem C16_zero_padded_fat_example : ltac:(let t := type of Tolerated.FatExamples.zero_padded_fat_v3_thm in exact t).
+Proof. exact Tolerated.FatExamples.zero_padded_fat_v3_thm. Qed.
+Check C16_zero_padded_fat_example.
+Print Assumptions C16_zero_padded_fat_example.
+
+(* EVALUATION (no general theorem): an over-long MiniFAT is truncated by permissive open and refused by strict open *)
+Theorem C16_overlong_minifat_example : ltac:(let t := type of Tolerated.FatExamples.overlong_minifat_v3 in exact t).
+Proof. exact Tolerated.FatExamples.overlong_minifat_v3. Qed.
+Check C16_overlong_minifat_example.
+Print Assumptions C16_overlong_minifat_example.
